@@ -2,6 +2,7 @@ package scen
 
 import (
 	"context"
+	"fmt"
 	"io"
 	"os/exec"
 	"sync"
@@ -24,23 +25,32 @@ type scriptRunner struct {
 	stdoutR, stderrR io.ReadCloser
 	stdout, stderr   io.WriteCloser
 
-	mu       sync.Mutex
-	exited   chan struct{}
-	exitOnce sync.Once
-	starts   int
-	kills    int
-	killedAt []string
-	startErr error
-	env      []string
-	stdin    io.Reader
-	tmpDir   string
+	mu         sync.Mutex
+	exited     chan struct{}
+	exitOnce   sync.Once
+	starts     int
+	kills      int
+	killsAlive int
+	killedAt   []string
+	startErr   error
+	env        []string
+	stdin      io.Reader
+	tmpDir     string
 	// address translation (identity unless set)
 	p2h, h2p   func(n, a string) (string, string, error)
 	ignoreKill bool
 }
 
 func newScriptRunner(x *vs.Exec, script func(r *scriptRunner)) *scriptRunner {
-	r := &scriptRunner{x: x, dom: x.Domain("plugin"), script: script, exited: make(chan struct{})}
+	// one failure domain per process: "plugin", "plugin#2", ...
+	n, _ := x.Data["runners"].(int)
+	n++
+	x.Data["runners"] = n
+	name := "plugin"
+	if n > 1 {
+		name = fmt.Sprintf("plugin#%d", n)
+	}
+	r := &scriptRunner{x: x, dom: x.Domain(name), script: script, exited: make(chan struct{})}
 	r.stdoutR, r.stdout = vnet.NewPipe(64*1024, x.Domain("host"))
 	r.stderrR, r.stderr = vnet.NewPipe(64*1024, x.Domain("host"))
 	return r
@@ -64,7 +74,7 @@ func (r *scriptRunner) Start(ctx context.Context) error {
 	if err != nil {
 		return err
 	}
-	r.x.Go("plugin", func() {
+	r.x.Go(r.dom.Name, func() {
 		defer r.exit()
 		r.script(r)
 	})
@@ -99,6 +109,9 @@ func (r *scriptRunner) Wait(ctx context.Context) error {
 func (r *scriptRunner) Kill(ctx context.Context) error {
 	r.mu.Lock()
 	r.kills++
+	if !r.hasExited() {
+		r.killsAlive++
+	}
 	ign := r.ignoreKill
 	r.mu.Unlock()
 	if !ign {
